@@ -341,6 +341,62 @@ func (h *e2eHQ) ServeHTTP(w http.ResponseWriter, r *http.Request) {
 	}
 }
 
+// ---- a minimal SOCKS5 proxy (no auth, CONNECT only): the WARC library accepts only socks5:// proxies
+
+func socks5Serve(ln net.Listener, count *int64, mu *sync.Mutex) {
+	for {
+		c, err := ln.Accept()
+		if err != nil {
+			return
+		}
+		go func(c net.Conn) {
+			defer c.Close()
+			br := bufio.NewReader(c)
+			hdr := make([]byte, 2)
+			if _, err := io.ReadFull(br, hdr); err != nil || hdr[0] != 5 {
+				return
+			}
+			io.CopyN(io.Discard, br, int64(hdr[1]))
+			c.Write([]byte{5, 0})
+			req := make([]byte, 4)
+			if _, err := io.ReadFull(br, req); err != nil || req[1] != 1 {
+				return
+			}
+			var host string
+			switch req[3] {
+			case 1:
+				b := make([]byte, 4)
+				io.ReadFull(br, b)
+				host = net.IP(b).String()
+			case 3:
+				l, _ := br.ReadByte()
+				b := make([]byte, int(l))
+				io.ReadFull(br, b)
+				host = string(b)
+			case 4:
+				b := make([]byte, 16)
+				io.ReadFull(br, b)
+				host = net.IP(b).String()
+			}
+			pb := make([]byte, 2)
+			io.ReadFull(br, pb)
+			port := int(pb[0])<<8 | int(pb[1])
+			up, err := net.Dial("tcp", net.JoinHostPort(host, strconv.Itoa(port)))
+			if err != nil {
+				c.Write([]byte{5, 5, 0, 1, 0, 0, 0, 0, 0, 0})
+				return
+			}
+			defer up.Close()
+			mu.Lock()
+			*count++
+			mu.Unlock()
+			c.Write([]byte{5, 0, 0, 1, 0, 0, 0, 0, 0, 0})
+			go io.Copy(up, br)
+			io.Copy(c, up)
+		}(c)
+	}
+}
+
 // ---- reading what is on disk
 
 type warcRec struct {
@@ -379,6 +435,12 @@ func readWARC(path string) (recs []warcRec, trailing string) {
 			return recs, "incomplete member: " + err.Error()
 		}
 		rec := warcRec{File: name}
+		if len(data) == 0 {
+			// a writer that was closed before it wrote anything leaves an empty gzip member: no record at all
+			rec.Type, rec.Complete = "empty-member", true
+			recs = append(recs, rec)
+			continue
+		}
 		hdrEnd := bytes.Index(data, []byte("\r\n\r\n"))
 		if hdrEnd < 0 || !bytes.HasPrefix(data, []byte("WARC/1.")) {
 			rec.Err = "no WARC header"
@@ -539,6 +601,17 @@ func runE2E(in map[string]any) string {
 	c.RateLimitRefillRate = float64(num(cfgIn, "rateLimitRefillRate", 50))
 	c.RateLimitCleanupFrequency = time.Minute
 	c.Proxy = str(cfgIn, "proxy")
+	var proxied int64
+	var pmu sync.Mutex
+	if boolean(cfgIn, "socksProxy", false) {
+		pln, err := net.Listen("tcp", "127.0.0.1:0")
+		if err != nil {
+			return "harness-error " + err.Error()
+		}
+		defer pln.Close()
+		go socks5Serve(pln, &proxied, &pmu)
+		c.Proxy = "socks5://" + pln.Addr().String()
+	}
 	c.MinSpaceRequired = 0
 	c.UserAgent = "verif-e2e"
 	c.NoStdoutLogging, c.NoStderrLogging, c.NoFileLogging = true, !boolean(in, "logs", false), true
@@ -691,6 +764,9 @@ func runE2E(in map[string]any) string {
 		}
 		report["blocked"] = blocked
 	}
+	pmu.Lock()
+	report["proxiedConnections"] = proxied
+	pmu.Unlock()
 	report["runMs"] = time.Since(started).Milliseconds()
 	time.Sleep(100 * time.Millisecond)
 	report["footprintAfterStop"] = map[string]any{"goroutines": runtime.NumGoroutine(), "fds": countFDs(), "g0": g0}
